@@ -45,3 +45,12 @@ Proof.
   unfold exec_rpn_direct. destruct args as [|a [|b [|c [|d l]]]];
     try (right; eexists; reflexivity). left. eexists. split; [reflexivity|]. ext_plain.
 Qed.
+
+(* take apart the `let '(a, b) := x in` and `if` of a goal *)
+Ltac destr_lets :=
+  repeat match goal with
+         | |- context [match ?x with (_, _) => _ end] => destruct x
+         | |- context [if ?b then _ else _] => destruct b
+         end.
+Ltac destr_pairs :=
+  repeat match goal with |- context [match ?x with (_, _) => _ end] => destruct x end.
